@@ -1,6 +1,8 @@
 package main
 
 import (
+	"os"
+	"path/filepath"
 	"fmt"
 	"sort"
 
@@ -156,6 +158,14 @@ func c12RealBackends(ctx *Ctx) {
 			}
 			if rec.HadPrev && rec.PrevRequest != rec.Request {
 				moved = true
+			}
+			if w.cmdDir != "" {
+				// the read-back of the next cycle is sometimes unusable: then the value must be written all the same
+				if r.Intn(3) == 0 {
+					_ = os.WriteFile(filepath.Join(w.cmdDir, "garble"), []byte("1"), 0644)
+				} else {
+					_ = os.Remove(filepath.Join(w.cmdDir, "garble"))
+				}
 			}
 			return false
 		})
